@@ -67,7 +67,7 @@ CLAIMED = {
              "breaks it); no call site in FourierFilter passes a swallowed keyword (decide). Oracle converts all 12 variants' outputs "
              "to (g, Q[S-1]) on the real code.", ref="8 (C09)",
              tech="Lean 4 definitional-unfolding theorems on translator output + call-binding facts + conversion oracle"),
- "C01": dict(text="Partial. Theorems on regenerated F_to_G/G_to_F/S_to_g/g_to_S for every N>=1, dr>0 on the matched grids r_j=j dr, "
+ "C01": dict(text="Theorems on regenerated F_to_G/G_to_F/S_to_g/g_to_S for every N>=1, dr>0 on the matched grids r_j=j dr, "
              "Q_k=k pi/(N dr): G_to_F(F_to_G f) = f and F_to_G(G_to_F G) = G for all data vanishing at both ends (DST-I orthogonality from a "
              "telescoping cosine sum, trapezoid rule on uniform grids); g_to_S(S_to_g S) = S and S_to_g(g_to_S g) = g for every rho>0 and all "
              "data with the conventional value 1 at index 0 and at index N (Props/C01Sg: wrapper = conversion;core;conversion by rfl, "
@@ -76,10 +76,15 @@ CLAIMED = {
              "(Mathlib measure theory) proves that the closed-form family of the statement IS a sine-Fourier pair under the documented conventions: "
              "int_0^inf A r exp(-a r^2) sin(Qr) dr = A sqrt(pi) Q/(4 a^1.5) exp(-Q^2/4a) and (2/pi) int_0^inf of that times sin(Qr) dQ = A r exp(-a r^2), "
              "for every A, a>0, Q, r, and for finite sums of members - so the target of the numerical comparison is a theorem, not a formula typed twice. 'To "
-             "discretisation accuracy' itself is not a theorem (no quadrature error bound for the trapezoid sum on a finite grid): the oracle "
+             "discretisation accuracy' is a theorem on uniform grids starting at 0 (Props/C01Quad, on Mathlib's trapezoidal error bound): the generated "
+             "fourier_transform on x_j = j d, j<=N, IS Mathlib's trapezoidal_integral of data*sin (R_ft_is_trapezoidal), and for every member, every A, a>0, "
+             "N>=1, d>0 and every output point t: |G_to_F value - closed-form partner| <= R d^2 zeta/12 + |A| exp(-a R^2)/(2a) with R = N d and "
+             "zeta = |A|(6aR + 4a^2R^3 + 2|t|(1+2aR^2) + t^2 R) (second-derivative bound on [0,R] + Gaussian tail); the same with the factor 2/pi in "
+             "the Q->r direction, and for finite sums of members (sum of the members' bounds). Non-uniform grids and the size of the constant in "
+             "practice stay with the oracle, which "
              "compares both directions of the real code with the closed form at 1e-9 of scale on grids where the "
              "trapezoid rule has converged (with and without accompanying uncertainties).", ref="8 (C01), 29",
-             tech="Lean 4 theorems (DST orthogonality, Finset sums, conversion refinements) on translator output + Lean 4/Mathlib theorem for the continuous closed-form pair + closed-form numerical sweep (partial)"),
+             tech="Lean 4 theorems (DST orthogonality, Finset sums, conversion refinements) on translator output + Lean 4/Mathlib theorems for the continuous closed-form pair and the trapezoid discretisation error + closed-form numerical sweep"),
  "C15": dict(text="Theorems on regenerated _low_x_correction and its call sites: the code adds codeTerm(lorch,Qmin,S(Qmin),Qmax,r) "
              "(refinement), which equals int_0^Qmin Q[S_lin(Q)-1] w(Q) sin(Qr) dQ for S_lin = S(Qmin) Q/Qmin, plain and Lorch-damped "
              "(FTC with explicit antiderivatives; plain: r != 0; Lorch: every r, the poles r = +-pi/Qmax included, after the fix: commit that "
